@@ -79,7 +79,7 @@ def run(rep, tier):
     jobs.append((builds[0], dict(group="asconcrypt", level="O0")))
     jobs.append((builds[0], dict(group="asconsum", level="O0")))
     lowered = repo.lower_many(jobs)
-    for r in ("C12.D1", "C12.D1m", "C12.D2", "C12.D3", "C12.D4", "C12.D6", "C12.D7", "C12.D8", "C12.D9"):
+    for r in ("C12.D1", "C12.D1m", "C12.D2", "C12.D3", "C12.D4", "C12.D6", "C12.D7", "C12.D8", "C12.D9", "C12.D10"):
         rep.rule(r, {"C12.D1": "constant subscript inside its array",
                      "C12.D1m": "constant-extent block operation inside its object/member",
                      "C12.D2": "guard-bounded variable subscript below the array bound",
@@ -88,6 +88,7 @@ def run(rep, tier):
                      "C12.D6": "constant-extent access fits the guard-bounded remaining length",
                      "C12.D8": "length arithmetic keeps the full width of size_t (no zero-extended 32-bit mask)",
                      "C12.D9": "caller-supplied byte buffers are accessed with no alignment assumption",
+                     "C12.D10": "a block write of the buffer's whole length starts at the buffer, not at an advanced cursor",
                      "C12.D7": "bytes a callee always accesses through a pointer parameter fit the object passed at each call site"}[r])
     for (b, kw), lr in zip(jobs, lowered):
         m = ir.Module.load(lr.json)
@@ -111,6 +112,7 @@ def run(rep, tier):
             dd = decls.get(f.d.get("srcname", f.name))
             if dd is not None:
                 rule_output_range(rep, m, f, dd, cname)
+                rule_cursor_full_length(rep, m, f, dd, cname)
         rule_strlen_sub(rep, m, cname)
         rule_param_extent(rep, m, cname)
         rule_alignment(rep, m, cname)
@@ -345,6 +347,55 @@ def rule_output_range(rep, m, f, decl, cname, rid="C12.D6", why=""):
         else:
             rep.instance(rid, 1, {"config": cname, "function": f.name, "buffer": params[k]["name"],
                                   "access": [off, off + w], "remaining_at_most": hi})
+
+
+def rule_cursor_full_length(rep, m, f, decl, cname, rid="C12.D10"):
+    """D10: [buf, buf + len) is the caller's buffer.  A block write (memset,
+    memcpy, ascon_clean, explicit_bzero) of exactly `len` bytes - the length
+    parameter itself, not a remaining count - is inside it only if it starts at
+    `buf`.  If the destination is a cursor into `buf` that may already have
+    advanced (non-zero or variable offset from the parameter), the write runs
+    past the end by as many bytes as the cursor has advanced."""
+    params = decl["params"]
+    if len(params) != len(f.params):
+        return
+    bufs = [k for k, p in enumerate(params) if p["ty"].replace(" ", "") in ("unsignedchar*", "uint8_t*", "char*", "void*")]
+    lens = [k for k, p in enumerate(params) if "*" not in p["ty"] and p["name"] in LEN_NAMES]
+    if not bufs or not lens:
+        return
+    R = ptr.resolver(f)
+    for i in f.insts():
+        if i.op != "call":
+            continue
+        if ptr.is_memset(i) or ptr.is_memcpy(i):
+            dst, ln = i.ops[0], i.ops[2]
+        elif i.callee in ("ascon_clean", "explicit_bzero") and len(i.ops) >= 2:
+            dst, ln = i.ops[0], i.ops[1]
+        else:
+            continue
+        if not ir.is_local(ln) or ln not in f.params:
+            continue
+        lk = f.params.index(ln)
+        if lk not in lens:
+            continue
+        pv = R.resolve(dst)
+        root = pv.single()
+        if root is None or root[0] != "param":
+            continue
+        k = f.params.index(root[1])
+        if k not in bufs:
+            continue
+        want = PAIR_NAMES.get(params[k]["name"])
+        if not (params[lk]["name"] == want or (want is None and len(lens) == 1)):
+            continue
+        if pv.variable or (pv.offset or 0) > 0:
+            rep.violation(rid, "%s:%s" % (f.name, params[k]["name"]), i.where(),
+                          "%s writes %s byte(s) - the whole length of '%s' - starting at a position inside the buffer that may "
+                          "already have advanced from its start (offset %s): the write runs past the end of the caller's buffer by as "
+                          "many bytes as were already produced" % (f.name, params[lk]["name"], params[k]["name"],
+                                                                    "variable" if pv.variable else pv.offset), config=cname)
+        else:
+            rep.instance(rid, 1, {"config": cname, "function": f.name, "buffer": params[k]["name"], "length": params[lk]["name"]})
 
 
 def _derives_from_len(f, v, N, depth=0, seen=None):
